@@ -12,12 +12,16 @@ Pick(S) == {RandomElement(S)}
 InFlight == {i \in Idx : chan[i] > 0}
 Pending  == {i \in outbox : i \notin tDelta}
 AnySrc(K) == \E ks \in Pick({s \in KindSeqs : \A j \in 1..Len(s) : s[j] \in K}), lose \in Pick({FALSE, FALSE, TRUE}) : SrcApply(ks, lose)
+Twice == {i \in Idx : chan[i] >= 2}
 AnyDeliver ==
   \/ \E i \in Pick(InFlight) : Deliver(<<i>>)
   \/ \E i \in Pick(InFlight), j \in Pick(InFlight) : Deliver(<<i, j>>)
+  \/ \E i \in Pick(InFlight), j \in Pick(InFlight), k \in Pick(InFlight) : Deliver(<<i, j, k>>)
+  \/ (Twice # {} /\ \E i \in Pick(Twice), j \in Pick(InFlight) : Deliver(<<i, j, i>>))     \* replay inside one batch
+  \/ (Twice # {} /\ \E i \in Pick(Twice) : Deliver(<<i, i>>))
 Fault == \E i \in Pick(InFlight) : Dup(i) \/ Drop(i)
 AnyAck == \E i \in Pick(outbox \cap tDelta) : Ack(i)
-Filler == \E who \in Pick({"src", "tgt"}) : Restart(who)
+Filler == IF bare THEN Resupply ELSE \E who \in Pick({"src", "tgt"}) : Restart(who)
 Eligible == {i \in outbox : chan[i] < MaxCopies /\ sends[i] < MaxSends}
 RetryAll == IF Eligible # {} THEN Retry(Eligible) ELSE Filler
 
@@ -39,8 +43,13 @@ SimStep ==
            \/ (r > 72 /\ r <= 76 /\ TgtWrite)
            \/ (r > 76 /\ r <= 82 /\ Filler)
            \/ (r > 82 /\ AnySrc({"F", "W"}))
+      [] phase = "switching" /\ bare ->
+           \/ (r <= 55 /\ AnySrc({"W", "F", "O"}))
+           \/ (r > 55 /\ r <= 70 /\ IF InFlight # {} THEN AnyDeliver ELSE Resupply)
+           \/ (r > 70 /\ Resupply)
       [] phase = "switching" ->
-           \/ (r <= 12 /\ AnySrc({"W", "F", "O"}))
+           \/ (r <= 6 /\ RestartBare)
+           \/ (r > 6 /\ r <= 12 /\ AnySrc({"W", "F", "O"}))
            \/ (r > 12 /\ r <= 45 /\ IF InFlight # {} THEN AnyDeliver ELSE RetryAll)
            \/ (r > 45 /\ r <= 55 /\ IF InFlight # {} THEN Fault ELSE Filler)
            \/ (r > 55 /\ r <= 68 /\ RetryAll)
